@@ -113,10 +113,7 @@ where
         Op: Operation,
         // ANCHOR_END: resolve_sig
     {
-        let resolve_result = request.resolve(result);
-        debug_assert!(resolve_result.is_ok());
-
-        resolve_result?;
+        request.resolve(result)?;
 
         Ok(self.process())
     }
